@@ -216,5 +216,54 @@ pub fn perturb_component(bytes: &mut [u8], c: &Comp, op: u8, bit: u8, rng: &mut 
     }
 }
 
+/// Structural perturbation of a length prefix: besides the bare +-1 (which makes the encoding
+/// undecodable) the vector is really lengthened / shortened by one element so that the altered
+/// proof still decodes and the verifier itself has to reject it.
+pub fn perturb_length(bytes: &mut Vec<u8>, c: &Comp, op: u8, rng: &mut Rng) -> Result<String, String> {
+    assert!(c.kind == Kind::Len);
+    let n = u32::from_be_bytes(bytes[c.off..c.off + 4].try_into().unwrap()) as usize;
+    let (elem, scalars) = if c.name.starts_with("proof.accounting.") { (2 * SCALAR_LEN, true) } else { (2 * POINT_LEN, false) };
+    let start = c.off + 4;
+    let end = start + n * elem;
+    if end > bytes.len() {
+        return Err(format!("harness: vector after {} exceeds the encoding", c.name));
+    }
+    match op % 4 {
+        0 => {
+            let new: Vec<u8> = match (op / 4) % 3 {
+                0 if n > 0 => bytes[end - elem..end].to_vec(),
+                1 if n > 0 => bytes[start..start + elem].to_vec(),
+                _ if scalars => {
+                    let a = if (op / 16) % 2 == 0 { Scalar::zero() } else { C::generate_scalar(rng) };
+                    let b = if (op / 32) % 2 == 0 { Scalar::zero() } else { C::generate_scalar(rng) };
+                    let mut v = to_bytes(&a);
+                    v.extend_from_slice(&to_bytes(&b));
+                    v
+                }
+                _ => {
+                    let mut v = to_bytes(&C::zero_point());
+                    v.extend_from_slice(&to_bytes(&C::one_point()));
+                    v
+                }
+            };
+            let at = if (op / 64) % 2 == 0 || n == 0 { end } else { start };
+            bytes.splice(at..at, new);
+            bytes[c.off..c.off + 4].copy_from_slice(&((n + 1) as u32).to_be_bytes());
+            Ok(format!("{} {}->{} (element {})", c.name, n, n + 1, if at == end { "appended" } else { "prepended" }))
+        }
+        1 if n > 0 => {
+            let at = if (op / 64) % 2 == 0 { end - elem } else { start };
+            bytes.drain(at..at + elem);
+            bytes[c.off..c.off + 4].copy_from_slice(&((n - 1) as u32).to_be_bytes());
+            Ok(format!("{} {}->{} (element removed)", c.name, n, n - 1))
+        }
+        k => {
+            let m = if k == 2 { (n as u32).wrapping_add(1) } else { (n as u32).wrapping_sub(1) };
+            bytes[c.off..c.off + 4].copy_from_slice(&m.to_be_bytes());
+            Ok(format!("{} {}->{} (prefix only)", c.name, n, m))
+        }
+    }
+}
+
 #[allow(dead_code)]
 pub fn scalar_is_zero(s: &Scalar) -> bool { s.is_zero() }
